@@ -156,7 +156,9 @@ def gen_case(seed, tier, i):
                      'proj_sub': rng.random() < 0.15,
                      'between': rng.choice(['none', 'none', 'gc', 'advance', 'host_restart', 'query'])})
     knobs = {'fast_parser': rng.random() < 0.8, 'cached_size_trigger': rng.choice([2, 600])}
-    return {'id': 'c07-%d' % i, 'init': init, 'plan': plan, 'knobs': knobs, 'hashseed': rng.randint(0, 2)}
+    return {'id': 'c07-%d' % i, 'init': init, 'plan': plan, 'knobs': knobs, 'hashseed': rng.randint(0, 2),
+            # the caller's cwd is the project and the Project is given as a relative pathlib.Path
+            'relproj': rng.random() < 0.2}
 
 
 # ---------------------------------------------------------------------------
@@ -402,7 +404,7 @@ class C07(base.Engine):
         stats = collections.Counter()
         problems = []
         events_all = []
-        base_spec = {'init': case['init'], 'inv': ['snap', 'sentinel', 'host'],
+        base_spec = {'init': case['init'], 'inv': ['snap', 'sentinel', 'host'], 'cwd': 'w' if case.get('relproj') else None,
                      'ops': [{'op': 'knob', 'name': k, 'value': v} for k, v in sorted(case['knobs'].items())]}
         sub = None
         seg_n = 0
@@ -441,6 +443,8 @@ class C07(base.Engine):
                     args['ul'] = line
                     args['uc'] = col + extra['len']
                 proj = {'path': 'pa/inner', 'added_sys_path': ['.']} if step.get('proj_sub') else {'path': '.'}
+                if case.get('relproj'):
+                    proj = dict(proj, pathlib_rel=True)
                 proj_rel = 'pa/inner' if step.get('proj_sub') else ''
                 seg = [{'op': 'script', 'sid': sid, 'code': code, 'path': path, 'project': proj},
                        {'op': 'refactor', 'sid': sid, 'rid': 'r', 'kind': kind, 'args': args,
